@@ -198,7 +198,16 @@ func (m *machine) Next(t *rapid.T) Op {
 			return m.genBind(t, defs)
 		}
 		op := Op{Kind: "updbind", Who: m.ownerFor(t, b), Svc: svcIndex(b.svc), Prov: b.prov}
-		what := uni(t, "upd/what", 7)
+		what := uni(t, "upd/what", 10)
+		switch what {
+		case 7: // nothing set at all: a valid no-op
+			return op
+		case 8: // only the options
+			op.Opts = true
+			return op
+		case 9:
+			op.Opts, what = true, 2
+		}
 		if what&1 != 0 || what == 0 {
 			op.Pricing = m.drawPricing(t)
 		}
